@@ -16,7 +16,7 @@ MIN_EVALS = {"quick": 20000, "thorough": 1000000}
 
 
 def plan(tier, seed):
-    n = 4 if tier == "quick" else 120
+    n = 4 if tier == "quick" else 70
     shards, no = [], 0
     for fam in ("fq", "fr", "fq2"):
         shards.append(dict(no=no, fam=fam, part="grid", idx=0)); no += 1
